@@ -78,11 +78,16 @@ impl<'a> Iterator for ChannelSpecIterator<'a> {
                 self.chars.next();
             }
             lexical_core::parse_partial(self.chars.as_slice())
-                .map(|(n, len)| {
-                    self.chars.nth(len - 1).unwrap();
-                    n
-                })
                 .map_err(|_| ErrorCode::ExpressionError)
+                .and_then(|(n, len)| {
+                    // A dimension must hold at least one digit (a lone sign or nothing is not a number)
+                    if len == 0 || !self.chars.as_slice()[len - 1].is_ascii_digit() {
+                        Err(ErrorCode::ExpressionError)
+                    } else {
+                        self.chars.nth(len - 1).unwrap();
+                        Ok(n)
+                    }
+                })
         })
     }
 }
